@@ -432,6 +432,36 @@ for alg in (8, 13, 14, 10):
         rep.violation("impl-vs-spec", f"signer-revoke-and-sign (algorithm {alg}): " + "; ".join(probs[:3]), {"kind": "signer-revoke-and-sign", "alg": alg, "schema": str(schema)})
 _P.save()
 
+# 10 --- a DNSKEY made from a token's public key (the path every KSK takes): curve/size mismatches and impossible flags are rejected here too,
+#        and what is accepted carries the RFC 4034 tag
+from kskm.common.dnssec import public_key_to_dnssec_key
+for i in range(40 * N):
+    alg = R.choice([13, 14])
+    n_ok = 64 if alg == 13 else 96
+    shape = R.choice(["right", "right", "other-curve", "short", "long", "prefixed", "prefixed-other-curve"])
+    n_ = {"right": n_ok, "other-curve": 160 - n_ok, "short": n_ok - 1, "long": n_ok + 2, "prefixed": n_ok + 1, "prefixed-other-curve": 161 - n_ok}[shape]
+    q = rand_bytes(n_)
+    if shape.startswith("prefixed"):
+        q = b"\x04" + q[1:]
+    elif q[:1] == b"\x04":
+        q = b"\x05" + q[1:]
+    flags = R.choice([257, 257, 256, 385, 0, 1, 258])
+    r_ = vlib.run_impl(public_key_to_dnssec_key, public_key=base64.b64encode(q), key_identifier="Ktok", algorithm=AlgorithmDNSSEC(alg), ttl=172800, flags=flags)
+    fits = shape in ("right", "prefixed") and flags in (256, 257, 385)
+    hist["dnskey-from-token-key"] = hist.get("dnskey-from-token-key", 0) + 1
+    what = None
+    if r_[0] == "ok" and not fits:
+        what = f"a {n_}-octet {'SEC1-prefixed ' if shape.startswith('prefixed') else ''}point with flags {flags} was made into an algorithm {alg} DNSKEY (key tag {r_[1].key_tag})"
+    elif r_[0] != "ok" and fits:
+        what = f"a fitting {n_}-octet point, flags {flags}, algorithm {alg} was refused ({r_[2]})"
+    elif r_[0] == "ok":
+        bare = q[1:] if shape == "prefixed" else q
+        want_tag = dns.dnssec.key_id(dns_dnskey(flags, 3, alg, bare))
+        if r_[1].key_tag != want_tag and r_[1].key_tag != dns.dnssec.key_id(dns_dnskey(flags, 3, alg, q)):
+            what = f"key tag {r_[1].key_tag} differs from RFC 4034's {want_tag}"
+    if what:
+        rep.violation("impl-vs-spec", "dnskey-from-token-key: " + what, {"kind": "dnskey-from-token-key", "alg": alg, "flags": flags, "point": q.hex(), "shape": shape})
+
 # ---- run the model on the same cases
 runner = vlib.CaseRun("C14", "main", "From KV Require Import Base.Prelude Base.Exn Base.Bytes Model.Data Model.Wire Checks.C14Check.",
                       "case", "check", shard=150)
